@@ -25,7 +25,8 @@ type c11Case struct {
 	// FailWriteFrom > 0 (full close only): the peer is already gone while
 	// requests it sent are still readable - the j-th reply write and all later
 	// ones fail, the bytes up to Cut can still be read.
-	FailWriteFrom int `json:"fail_write_from,omitempty"`
+	FailWriteFrom int  `json:"fail_write_from,omitempty"`
+	CloseErr      bool `json:"close_err,omitempty"` // the transport's Close closes but reports an error (TLS peer gone)
 }
 
 func c11Check(cs c11Case) (clause, detail string) {
@@ -43,7 +44,7 @@ func c11Check(cs c11Case) (clause, detail string) {
 	if cs.Reset {
 		end = seq.EndReset
 	}
-	r := runDouble(seq.Script{Input: input[:cs.Cut], Stride: cs.Stride, End: end, FailWriteFrom: cs.FailWriteFrom}, func(s *redis.Server, d *srv.Double) {
+	r := runDouble(seq.Script{Input: input[:cs.Cut], Stride: cs.Stride, End: end, FailWriteFrom: cs.FailWriteFrom, CloseErr: cs.CloseErr}, func(s *redis.Server, d *srv.Double) {
 		s.SetAuthCommandHandler(d)
 		catalogueDouble(d)
 	})
@@ -130,9 +131,12 @@ func c11Run(c *fw.Ctx) {
 			total += len(r)
 		}
 		for cut := 0; cut <= total; cut++ {
-			for _, mode := range []string{"eof", "reset", "reset+write-fails@1", "reset+write-fails@2"} {
+			for _, mode := range []string{"eof", "reset", "reset+close-error", "reset+write-fails@1", "reset+write-fails@2"} {
 				for _, stride := range []int{0, 1} {
-					cs := c11Case{Requests: reqs, Labels: labels, Cut: cut, Reset: mode != "eof", Stride: stride}
+					cs := c11Case{Requests: reqs, Labels: labels, Cut: cut, Reset: mode != "eof", Stride: stride, CloseErr: mode == "reset+close-error"}
+					if cs.CloseErr && stride != 0 {
+						continue
+					}
 					if i := strings.IndexByte(mode, '@'); i > 0 {
 						cs.FailWriteFrom = int(mode[i+1] - '0')
 						if cs.FailWriteFrom > len(reqs) || stride != 0 {
@@ -249,7 +253,7 @@ func init() {
 	fw.Register(&fw.Prop{
 		ID:          "C11",
 		Level:       "fault_enumeration",
-		Rule:        "pipelines of 1 valid request (every valid shape of the catalogue, <=4 per command in quick, plus requests with optional tails such as 'LPOP k 5', 'PING m', 'SET k v EX 5', pair lists, 2- and 3-digit lengths) and of 2 requests (representative x valid; thorough: representative triples); EVERY byte offset 0..len as the point where the stream ends x {half-close: Read->EOF, writes succeed; full close: Read->ECONNRESET, writes fail afterwards; full close noticed early: reply write #1 or #2 and all later ones fail while the bytes sent before the close are still readable} x {whole, 1-byte delivery}. Size ladder: PING, SET k <L bytes>, ECHO x for L around every power of two up to 65537 and 10^2..10^4, cut within 6 bytes of every structural position and every 4096 bytes inside the value. Oracle: recorded handler calls = the calls of exactly the completely delivered requests (taken from running each alone), their replies once and in order (half-close), then loop returned, transport closed, registry empty. Non-trivial = distinct (pipeline, cut, close mode).",
+		Rule:        "pipelines of 1 valid request (every valid shape of the catalogue, <=4 per command in quick, plus requests with optional tails such as 'LPOP k 5', 'PING m', 'SET k v EX 5', pair lists, 2- and 3-digit lengths) and of 2 requests (representative x valid; thorough: representative triples); EVERY byte offset 0..len as the point where the stream ends x {half-close: Read->EOF, writes succeed; full close: Read->ECONNRESET, writes fail afterwards; full close where the transport's Close reports an error although it closes (a TLS connection whose peer is gone); full close noticed early: reply write #1 or #2 and all later ones fail while the bytes sent before the close are still readable} x {whole, 1-byte delivery}. Size ladder: PING, SET k <L bytes>, ECHO x for L around every power of two up to 65537 and 10^2..10^4, cut within 6 bytes of every structural position and every 4096 bytes inside the value. Oracle: recorded handler calls = the calls of exactly the completely delivered requests (taken from running each alone), their replies once and in order (half-close), then loop returned, transport closed, registry empty. Non-trivial = distinct (pipeline, cut, close mode).",
 		Assumptions: []string{"an error reply written for the partial request itself is tolerated; any handler call or non-error reply for it is a violation"},
 		Run:         c11Run,
 		Replay:      c11Replay,
